@@ -374,7 +374,8 @@ def run(ctx):
                      hang_key, op_str(c[0]), op_str(c[-1]), " ; ".join(op_str(e) for e in c)),
             replay={"script": hscript, "observed": again[-1]}))
 
-    negctl = (negative_control(ctx, cases_r, "TraceRegistryView", "TraceRegistryView.cfg")
+    negctl = (negative_control(ctx, [c for c in cases_r if c[-1]["ev"] not in ("Hang", "Panic")],
+                                "TraceRegistryView", "TraceRegistryView.cfg")
               if not trace_violations else "skipped")
     ctx.log("negative control: %s" % negctl)
 
